@@ -15,6 +15,9 @@ operator is one rounding, in source order:
   0.5f * curDemand * invTotalDemand                        `fl (fl (1/2 * d) * inv)`
   dem += h                                                 `fl (dem + h)`
   dem * maxCoord + (1.0f - dem) * minCoord                 `fl (fl (dem * hi) + fl (fl (1 - dem) * lo))`
+  std::min(std::max(coord, minCoord), maxCoord)            comparisons only (exact) — the clamp added by
+                                                           fixes/c06-spread-clamp.diff; the function before
+                                                           that fix is `Model/LegacySpreadF.lean`
   (float) int   (cellDemand, binLimit, placementArea)      `fl (n : Rat)`
   std::min(std::max(t, areaMin), areaMax)                  comparisons only (exact)
 
@@ -36,8 +39,15 @@ def sumF (l : List Rat) : Rat := l.foldl addF 0
 def halfShareF (demands : List Rat) (inv : Rat) (c : Nat) : Rat :=
   fl (fl ((1 / 2) * demands.getD c 0) * inv)
 
-/-- `dem * maxCoord + (1.0f - dem) * minCoord` -/
-def coordAtF (dem lo hi : Rat) : Rat := fl (fl (dem * hi) + fl (fl (1 - dem) * lo))
+/-- `float coord = dem * maxCoord + (1.0f - dem) * minCoord` -/
+def coordRawF (dem lo hi : Rat) : Rat := fl (fl (dem * hi) + fl (fl (1 - dem) * lo))
+
+/-- `std::min(std::max(coord, minCoord), maxCoord)`: `max(a,b) = a < b ? b : a`, `min(a,b) = b < a ? b : a` -/
+def clampBin (lo hi v : Rat) : Rat :=
+  if hi < (if v < lo then lo else v) then hi else (if v < lo then lo else v)
+
+/-- the value written to `coords[c]` -/
+def coordAtF (dem lo hi : Rat) : Rat := clampBin lo hi (coordRawF dem lo hi)
 
 /-- One iteration of the loop over `order`; the state is `(dem, coords)`. -/
 def spreadStepF (demands : List Rat) (inv lo hi : Rat) (st : Rat × List Rat) (e : Rat × Nat) :
@@ -86,11 +96,5 @@ def spreadCoordXF (v : View) (nbCells : Nat) (target : List Rat) (demand : List 
   spreadCoordF nbCells (firstLim v.limX) (lastLim v.limX) v.binsX target demand
 def spreadCoordYF (v : View) (nbCells : Nat) (target : List Rat) (demand : List Int) : List Rat :=
   spreadCoordF nbCells (firstLim v.limY) (lastLim v.limY) v.binsY target demand
-
-/-- the running share `dem` after the whole loop (observable through the last coordinate only; used
-by the theorems) -/
-def finalShareF (targets demands : List Rat) (lo hi : Rat) : Rat :=
-  (spreadLoopF demands (invF demands) lo hi (sortedOrder targets)
-    (0, List.replicate targets.length 0)).1
 
 end ColoVerif.SpreadF
